@@ -232,12 +232,6 @@ theorem C19_clock_superseded_expiry_silent (c : SysClock.State) (o1 d1 o2 d2 : I
     intro a ha
     have := hwf.1 a ha
     simp; omega
-  have hfilt : ∀ k, c.nextId ≤ k → c.pending.filter (fun b => decide (b.id ≠ k)) = c.pending := by
-    intro k hk
-    rw [List.filter_eq_self]
-    intro a ha
-    have := hwf.1 a ha
-    simp; omega
   refine ⟨{ c with adjustment := some ⟨c.nextId + 1, e2, f2⟩, nextId := c.nextId + 2,
                    pending := c.pending ++ [⟨c.nextId + 1, e2, f2⟩] }, ?_, ?_⟩
   · rw [hc2]
